@@ -22,7 +22,7 @@ CLAIMED = {
         "smallest failing sub-type; independently of the verdict oracle (also in its unspecified cells) every returned value must be shaped like an "
         "image of T at every depth (pv/typed.py: exactly int where int is declared, list for List, ...), and an accepted instance of a subclass of an interchange "
         "type (user subclass, a str subclass whose __str__ is not its text, mixin enum member; suite subclass-inputs) converts to the plain value it carries. Evidence that the property held on "
-        "everything explored, with the class histogram of what was explored. Suite namedtuple: NamedTuple / namedtuple classes (bare, in a list, as a field) x 17 values against hand-written verdicts; convert() of subclassed inputs is judged like from_data.",
+        "everything explored, with the class histogram of what was explored. Suite namedtuple: NamedTuple / namedtuple classes (bare, in a list, as a field) x 17 values against hand-written verdicts; convert() of subclassed inputs is judged like from_data. Suite temporal-objects: date / time / datetime objects as data (also out of YAML documents) narrow to the declared part, time zone included.",
         "Trusts the reference interpreter (pv/tg.py, pv/cg.py), stdlib constructors, and the list of unspecified cells in DESIGN.md section 2.",
         "DESIGN.md section 5, C01",
     ),
@@ -39,8 +39,8 @@ CLAIMED = {
         "For every generated (type, value) and every (sub-type, sub-value) reached by walking the value, the fast pass raises "
         "ParseInterrupt iff the diagnostic pass returns an error tree, and convert() never raises the 'bug of the Converter' RuntimeError. "
         "A third suite feeds the condition grammar of C13 (conditions must see the converted value in both passes). "
-        "The evidence lists which converter classes were exercised and how often.",
-        "No reference model needed; trusts only the walk of (sub-type, sub-value) pairs in pv/tg.py. User-written converters are out of scope.",
+        "Suite extension-points: a union built with a refusing constructor by a _converter hook, and a default factory that raises. The evidence lists which converter classes were exercised and how often.",
+        "No reference model needed; trusts only the walk of (sub-type, sub-value) pairs in pv/tg.py. User-written converter classes are out of scope.",
         "DESIGN.md section 5, C03",
     ),
     'C04': (
@@ -75,7 +75,7 @@ CLAIMED = {
         "For every rejected generated (type, value): product nodes are keyed by exactly the positions/keys whose element is rejected on its own and "
         "each child equals that element's own tree; missing/extra equal the model's sets; unions report one alternative per built member in order, "
         "each equal to the member's own tree; tagged unions report the selected variant's tree; leaves record the offending sub-value. A second suite "
-        "resolves the unspecified python-name-as-key cell by observation: the tree must describe the same key-naming relation the fast path uses. Children of a homogeneous mapping are keyed by the key itself, whatever its kind.",
+        "resolves the unspecified python-name-as-key cell by observation: the tree must describe the same key-naming relation the fast path uses. Children of a homogeneous mapping are keyed by the key itself, whatever its kind. The tree of a failure equals (==) the tree of the same failure taken again, also with NaN or arrays in its leaves.",
         "Element trees come from pane itself (composition is what is checked; verdicts are C01's). Trusts pv/errtree.py tree equality and the class model's key tables.",
         "DESIGN.md section 5, C07",
     ),
@@ -84,7 +84,7 @@ CLAIMED = {
         "Every error tree reachable from the generator is rendered: rendering returns, is repeatable, a deep copy renders to the same lines, and the "
         "text contains every path component in nesting order followed by each leaf's expectation (a product node that only lacks fields or has unknown keys is a leaf), every missing/unexpected/duplicate name, the "
         "offending value of every leaf outside a sum (one per sum), and the message of every causing exception. Batches of failing conversions are also rendered "
-        "in fresh interpreters under two other PYTHONHASHSEED values and must give the same text. A union shows the value the union was given; suite huge-ints renders failures around ints of 4300 to 20001 digits.",
+        "in fresh interpreters under two other PYTHONHASHSEED values and must give the same text. A union shows the value the union was given; suite huge-ints renders failures around ints of 4300 to 20001 digits; suite odd-names: missing, unexpected and duplicated field names that are not text.",
         "Containment is substring-in-order, so wording/layout changes are not flagged.",
         "DESIGN.md section 5, C08",
     ),
@@ -102,7 +102,7 @@ CLAIMED = {
         "Histories of up to 50 (thorough 120) operations on short-lived type objects; every conversion outcome must equal the reference verdict for "
         "(spec, value) - also after the caller has modified every container of an earlier result -, the memoised converter must behave like one built past the cache, interleaved calls with different call-level handlers must "
         "each follow their own handlers, and KeyCache (unbounded and LRU maxsize 1-4) must always return f(args) and respect maxsize. "
-        "Histories are plain data and replay without Hypothesis. Union member order below another union / annotation, in constrained TypeVars and ValueOrList must not follow an equal type written earlier; suite register-after-use: a handler registered after a type was first converted is used from then on.",
+        "Histories are plain data and replay without Hypothesis. Union member order below another union / annotation, in constrained TypeVars and ValueOrList must not follow an equal type written earlier; suite register-after-use: a handler registered after a type was first converted is used from then on (from_data, constructor, __replace__); suite forward-reference: a named tuple converted before the class its slot refers to exists.",
         "The harness does not own the thread schedule (stress only) nor the allocator (id-reuse events are measured and reported, not forced).",
         "DESIGN.md section 5, C10",
     ),
@@ -153,7 +153,7 @@ CLAIMED = {
         "Every (eq, order, frozen, unsafe_hash, explicit __hash__, user __eq__) point is built both as a pane dataclass and as a standard "
         "dataclass and must land in the same hash category; equality/ordering are checked against the compare-fields model (reflexive, symmetric, "
         "transitive on triples, lexicographic, trichotomy, eq implies equal hash); frozen, copy, deepcopy, __replace__ and repr are checked against the model; "
-        "generated hash / modify / copy / set-lookup histories over five legitimately mutable configurations require equal instances to hash equal at every moment. Suite partial-order: float (NaN) / FrozenSet / int fields, the four operators against the lexicographic definition; copy of an instance with an unset init=False field.",
+        "generated hash / modify / copy / set-lookup histories over five legitimately mutable configurations require equal instances to hash equal at every moment. Suite partial-order: float (NaN) / FrozenSet / int fields, the four operators against the lexicographic definition; copy of an instance with an unset init=False field; an instance holding NaN equals itself and its copies; suite frozen-chains: the frozen option along inheritance chains.",
         "Trusts the standard library's dataclass hash table as the reference. Field values are totally ordered and NaN-free except in suite partial-order.",
         "DESIGN.md section 5, C16",
     ),
